@@ -44,6 +44,14 @@ NOTE = ("trusted base: the SimVM binding and shadow-heap model in /verif/sim, th
         "forwarding-word sites, allocator slow path), sequential consistency (one thread runs at a time), the simulated clock. "
         "mmtk-core's own debug assertions are enabled and count as oracles.")
 
+NOTE_COMP = ("trusted base: the component harness and its sequential reference model in /verif/sim/src/comp.rs, the token "
+             "scheduler (context switches at the cfg(mmtk_verif) yield points inside the raw metadata accessors, the block "
+             "queue and pool, and the lock shims), sequential consistency. The callers are generated operation sequences that "
+             "respect the component's documented contract (single writer per field; no flush while a push is in flight; no "
+             "quarantine of an already quarantined chunk).")
+TECH_COMP = ("deterministic simulation of one component: simulated threads under a seeded token scheduler (plus injected mmap "
+             "failures for the mmapper) against a sequential reference model")
+
 TECH = {
     "default": "deterministic simulation: seeded token scheduler + fault injection over real mmtk-core with a SimVM binding, "
                "shadow-heap reference model and history oracles",
@@ -69,8 +77,8 @@ def main():
                 "text": cfg.get("level_text", LEVEL_TEXT["default"]),
                 "design_ref": "DESIGN.md section 4 (%s)" % pid,
             },
-            "level_note": cfg.get("level_note", NOTE),
-            "technique": cfg.get("technique", TECH["default"]),
+            "level_note": NOTE_COMP if cfg["engine"] == "compsim" else cfg.get("level_note", NOTE),
+            "technique": TECH_COMP if cfg["engine"] == "compsim" else cfg.get("technique", TECH["default"]),
         })
     na = []
     for pid in ALL:
@@ -98,7 +106,7 @@ def main():
                                "seeded workload/config/schedule/fault generation, shadow heap + history oracles, "
                                "ddmin minimiser, replay files"},
         ] + ([
-            {"name": "compsim", "path": "sim/src/bin/compsim.rs",
+            {"name": "compsim", "path": "sim/src/comp.rs (run by sim/src/bin/syssim.rs when the spec's plan is \"comp\")",
              "serves_properties": sorted(p for p in check.PROPS if check.PROPS[p]["engine"] == "compsim"),
              "kind_free_text": "component-level deterministic simulator: the real mmtk-core component (block pool, side/"
                                "header metadata, mmapper, ...) driven by simulated threads under the same token scheduler, "
